@@ -48,6 +48,7 @@ type Prog struct {
 	constGlobals map[*ssa.Global]ssa.Value
 	constTables  map[*ssa.Global]map[int64]*ssa.Const
 	notTable     map[*ssa.Global]bool
+	roles        *Roles
 }
 
 // brokenf reports that the check itself cannot run (exit 2): never a silent pass.
